@@ -401,6 +401,8 @@ func c20Run(c *core.Ctx) {
 			r.Bound("schedules_all_pairs", "every pair of different entries: all schedules with <=1 preemption")
 			b.runShards(r, 32, func(s int) []string { return []string{"sched", "1", "3", strconv.Itoa(s), "32", "ff"} })
 			r.Bound("schedules_3_threads", "f||f||f for every entry: all schedules with <=1 preemption")
+		} else if len(r.Viol) > 0 {
+			r.Note("violations were already found by the earlier passes: the all-pairs monitor pass is skipped in the quick tier")
 		} else {
 			b.runShards(r, 32, func(s int) []string { return []string{"sched", "1", "2", strconv.Itoa(s), "32", "all"} })
 			r.Bound("schedules_all_pairs", "every pair of different entries: write monitor at every scheduling point of both sequential orders; pairs without shared writes discharged by commutativity, others explored with <=1 preemption")
